@@ -299,6 +299,7 @@ type Contract struct {
 	Safety    []string // classes of automatic obligations claimed: nil idx slice div wrap conv assert map
 	SafetyProps []string
 	Opts      map[string]string
+	ExtraProps []string // properties this function carries obligations for without a clause of its own
 	AllLoopInv []*Clause  // invariants added to every loop (schemas)
 	Protect    []string   // heaps that must not change on pre-existing objects (schemas)
 	ProtectProps []string
@@ -337,6 +338,7 @@ type SpecFile struct {
 	Ghosts    []*GhostField
 	GhostVars [][2]string // global ghost variables: name, type
 	Consts    [][3]string // const checks: name, expected value, props
+	GuardedBy  [][4]string // struct, map field, mutex field, props
 	GlobalInvs [][2]string // facts about package-level variables (established by initialisation), file:line
 	TypeInvs  [][3]string // struct type, expression over "self", file:line
 }
@@ -482,6 +484,13 @@ func ParseSpecLines(sf *SpecFile, file string, lines []string, trusted bool) err
 				return errf("ghostfield T name type")
 			}
 			sf.Ghosts = append(sf.Ghosts, &GhostField{fields[1], fields[2], fields[3]})
+		case "guardedby":
+			// guardedby[C09] Segment.fieldFSTs m
+			if len(fields) != 3 || !strings.Contains(fields[1], ".") {
+				return errf("guardedby[props] T.field mutexField")
+			}
+			tf := strings.SplitN(fields[1], ".", 2)
+			sf.GuardedBy = append(sf.GuardedBy, [4]string{tf[0], tf[1], fields[2], strings.Join(tags, ",")})
 		case "globalinv":
 			sf.GlobalInvs = append(sf.GlobalInvs, [2]string{rest, l.at})
 		case "typeinv":
